@@ -23,7 +23,7 @@ pub static DEF: PropertyDef = PropertyDef {
            entropy seed must give byte-identical output. The run is repeated in the dev-profile build and the per-run digests compared. \
            Non-trivial = the program has a list value with >= 2 items or >= 2 flows or >= 2 globals in the save; distinct = hash of program+history.",
     assumptions: &["story seed fixed through the guarded seed hook", "the order in which observers of different variables are notified within one continue is not part of the property"],
-    runs_quick: 1200,
+    runs_quick: 4000,
     runs_thorough: 60000,
     exhaustive_note: "none (K entropy seeds per sampled case)",
     generate,
@@ -31,7 +31,7 @@ pub static DEF: PropertyDef = PropertyDef {
     must_hit: &["fault.entropy.compared", "fault.entropy.list_program", "fault.entropy.compile_compared", "fault.entropy.map_order_differed"],
     timeout_s: 60,
     hang_class: None,
-    sub_builds: &[("dev", 400, 10000, true)],
+    sub_builds: &[("dev", 1000, 10000, true)],
     stack_mb: 64,
 };
 
